@@ -418,6 +418,41 @@ def why_uses(tr, name, seen=None):
     return [name] + w if w else None
 
 
+def uses_anywhere(tr):
+    """{function: True if a use of worker state is reachable from it at all}"""
+    funcs = tr["funcs"]
+    direct, callees = {}, {}
+
+    def walk(evs, f):
+        for e in evs:
+            if e[0] == "use":
+                direct[f] = True
+            elif e[0] == "call":
+                callees[f].add(e[1])
+            elif e[0] == "block":
+                walk(e[1], f)
+    for f, evs in funcs.items():
+        direct[f] = False
+        callees[f] = set()
+        walk(evs, f)
+    res = dict(direct)
+    changed = True
+    while changed:
+        changed = False
+        for f in funcs:
+            if not res[f] and any(res.get(g, False) for g in callees[f]):
+                res[f] = True
+                changed = True
+    return res
+
+
+def race_entries(tr, cl, done):
+    """entries of class `ensures` that a native (non-worker) OS thread may legitimately call: they never need the
+    current worker, so the losers of a concurrent implicit first use can complete them after the winner initialised"""
+    ua = uses_anywhere(tr)
+    return [n for n in done if cl.get(n) == "ensures" and not ua.get(n, True)]
+
+
 # ---- Coq data ----
 
 def coq_events(evs):
@@ -605,9 +640,62 @@ def first_program(tr):
     src.append("static struct { const char * name; int (*fn)(void); } table[] = {\n" +
                "".join('  { "%s", call_%s },\n' % (n, n) for n in done) + "  { 0, 0 } };\n")
     src.append(r"""
+/* race <C> <name1> .. <nameK>: C epochs; in each, K native threads leave a spin barrier and make their own
+   entry point their first library call of the epoch; the caller that became worker 0 reports and finalises */
+#include <pthread.h>
+#define MAXK 16
+static int K, C, r_idx[MAXK];
+static volatile int bar_count, bar_gen, r_worker[MAXK], r_before[MAXK];
+static void barrier(void) {
+  int g = bar_gen;
+  if (__sync_add_and_fetch(&bar_count, 1) == K) { bar_count = 0; __sync_synchronize(); bar_gen = g + 1; }
+  else while (bar_gen == g) ;
+}
+static void * racer(void * arg) {
+  long me = (long)arg; int c;
+  for (c = 0; c < C; c++) {
+    barrier();
+    r_before[me] = table[r_idx[me]].fn();
+    r_worker[me] = myth_is_myth_worker();
+    barrier();
+    {
+      int i, winners = 0, first = -1;
+      for (i = 0; i < K; i++) if (r_worker[i]) { winners++; if (first < 0) first = i; }
+      if (winners != 1) {
+        if (me == 0) { printf("race %d winners=%d nw=-1 tasks=%d\n", c, winners, count_tasks_once()); fflush(stdout); _exit(3); }
+        for (;;) pause();
+      }
+      if (first == me) {
+        int nw = myth_get_num_workers();
+        printf("race %d winner=%s winners=%d nw=%d tasks=%d state=%d\n", c, table[r_idx[me]].name, winners, nw,
+               count_tasks_expect(K + nw - 1), g_myth_init_state);
+        fflush(stdout);
+        myth_fini();
+      }
+    }
+    barrier();
+  }
+  return NULL;
+}
+static int do_race(int argc, char ** argv) {
+  pthread_t th[MAXK]; long i; int j;
+  C = atoi(argv[2]); K = argc - 3; if (K > MAXK) K = MAXK;
+  for (i = 0; i < K; i++) {
+    for (j = 0; table[j].name; j++) if (strcmp(table[j].name, argv[3 + i]) == 0) break;
+    if (!table[j].name) return 2;
+    r_idx[i] = j;
+  }
+  for (i = 1; i < K; i++) pthread_create(&th[i], NULL, racer, (void *)i);
+  racer((void *)0);
+  for (i = 1; i < K; i++) pthread_join(th[i], NULL);
+  printf("race-done state=%d tasks=%d\n", g_myth_init_state, count_tasks_expect(1));
+  return 0;
+}
+
 int main(int argc, char ** argv) {
   int i, before, nw;
   if (argc < 2) return 2;
+  if (strcmp(argv[1], "race") == 0 && argc >= 4) return do_race(argc, argv);
   for (i = 0; table[i].name; i++) if (strcmp(table[i].name, argv[1]) == 0) break;
   if (!table[i].name) return 2;
   before = table[i].fn();
